@@ -15,7 +15,7 @@ use kawa::{AsBuffer, BodySize, Kawa, Kind, OutBlock};
 use rusty_ulid::Ulid;
 use sozu_lib::pool::{Checkout, Pool};
 use sozu_lib::protocol::http::editor::HttpContext;
-use sozu_lib::protocol::mux::verif_hdr::{handle_header, Prioriser};
+use sozu_lib::protocol::mux::verif_hdr::{handle_header, handle_trailer, Prioriser};
 use sozu_lib::Protocol;
 use verif_harness::*;
 
@@ -305,6 +305,77 @@ fn run(case: &Case, out: &mut Out) {
                     }
                     Some(l) => out.viol("h2-h1-count", &format!("a strict backend reads {} requests in what sozu wrote for one stream", l.len())),
                     None => out.viol("h2-h1-malformed", &format!("sozu accepted the header list but wrote a request a strict RFC 9112 reader refuses: {:?}", String::from_utf8_lossy(&bytes[..bytes.len().min(120)]))),
+                }
+            }
+            "h2t" => {
+                // a request trailer block through the real pkawa::handle_trailer, after an upload head
+                // accepted by handle_header (chunked towards HTTP/1.1, or Content-Length framed)
+                let lf = a[0].n() == 1;
+                let ts_: HL = a[1..].chunks(2).filter(|c| c.len() == 2).map(|c| (c[0].b().to_vec(), c[1].b().to_vec())).collect();
+                let mut head: HL = vec![
+                    (b":method".to_vec(), b"POST".to_vec()),
+                    (b":scheme".to_vec(), b"https".to_vec()),
+                    (b":path".to_vec(), b"/".to_vec()),
+                    (b":authority".to_vec(), b"x".to_vec()),
+                ];
+                if lf {
+                    head.push((b"content-length".to_vec(), b"0".to_vec()));
+                }
+                let mut enc = loona_hpack::Encoder::new();
+                let mut block = vec![];
+                for (k, v) in &head {
+                    enc.encode_header_into((&k[..], &v[..]), &mut block).unwrap();
+                }
+                let mut kawa: K = Kawa::new(Kind::Request, kawa::Buffer::new(pool.checkout().unwrap()));
+                let mut dec = loona_hpack::Decoder::new();
+                let mut prio = Prioriser::default();
+                if handle_header(&mut dec, &mut prio, 1, &mut kawa, &block, false, &mut kawa::h1::NoCallbacks, 1 << 20, 1000, false).is_err() {
+                    out.note("invalid-case: the upload head was refused");
+                    out.obs(&[ts("reject")]);
+                    continue;
+                }
+                kawa.prepare(&mut kawa::h1::BlockConverter);
+                let head_bytes = out_bytes(&kawa);
+                let n = head_bytes.len();
+                kawa.consume(n);
+                let mut tblock = vec![];
+                for (k, v) in &ts_ {
+                    enc.encode_header_into((&k[..], &v[..]), &mut tblock).unwrap();
+                }
+                if handle_trailer(&mut kawa, &tblock, true, &mut dec, 1 << 20, 1000, false).is_err() {
+                    out.obs(&[ts("reject")]);
+                    continue;
+                }
+                kawa.prepare(&mut kawa::h1::BlockConverter);
+                let tail = out_bytes(&kawa);
+                // chunked: `0 CRLF` + the trailer section; Content-Length framed: nothing
+                let section: Vec<u8> = if lf { vec![] } else { tail.strip_prefix(b"0\r\n").map(|x| x.to_vec()).unwrap_or_else(|| tail.clone()) };
+                out.obs(&[ts("accept"), tb(&section)]);
+                if !lf && !tail.starts_with(b"0\r\n") {
+                    out.viol("h2-h1-trailers", "the trailer section does not start after a last-chunk line");
+                }
+                if lf && !tail.is_empty() {
+                    out.viol("h2-h1-trailers", "bytes were written after a Content-Length framed body");
+                }
+                // oracle: head + what was written is ONE request for a strict reader, whose trailers are the client's
+                let mut full = head_bytes.clone();
+                full.extend_from_slice(&tail);
+                match strict_h1(&full) {
+                    Some(l) if l.len() == 1 => {
+                        let want: HL = if lf {
+                            vec![]
+                        } else {
+                            ts_.iter()
+                                .filter(|(k, _)| ![&b"x-real-ip"[..], b"x-forwarded-for", b"forwarded", b"x-request-id"].contains(&&k[..]))
+                                .map(|(k, v)| (k.clone(), trim_ows(v).to_vec()))
+                                .collect()
+                        };
+                        if l[0].trailers != want {
+                            out.viol("h2-h1-trailers", "the trailer fields read by a strict backend are not the client's (attribution names dropped)");
+                        }
+                    }
+                    Some(l) => out.viol("h2-h1-count", &format!("a strict backend reads {} requests in what sozu wrote for one stream with trailers", l.len())),
+                    None => out.viol("h2-h1-malformed", &format!("sozu accepted the trailer block but wrote a message a strict RFC 9112 reader refuses: {:?}", String::from_utf8_lossy(&tail[..tail.len().min(120)]))),
                 }
             }
             "guard" => {
